@@ -36,7 +36,11 @@ type Obligation struct {
 	Pos       string `json:"pos"`
 	Verdict   string `json:"verdict"`
 	Why       string `json:"why,omitempty"`
-	verdict   Verdict
+	// FindKey, when set, identifies the construct for the known-findings file independently of the names of the
+	// enclosing function and of locals (type-qualified operands), so that a finding stays the same finding when the
+	// code around it is moved or renamed.
+	FindKey string `json:"find_key,omitempty"`
+	verdict Verdict
 }
 
 // Rule is one structural rule of one property.
@@ -57,7 +61,11 @@ type Report struct {
 	Unres    []string
 	prog     *Program
 	seen     map[string]int
+	findKey  string
 }
+
+// WithFindKey sets the known-findings key of the next obligation recorded.
+func (r *Report) WithFindKey(k string) *Report { r.findKey = k; return r }
 
 func NewReport(prop string, p *Program) *Report {
 	return &Report{Property: prop, Census: map[string]int{}, prog: p, seen: map[string]int{}}
@@ -77,7 +85,8 @@ func (r *Report) add(v Verdict, n ast.Node, construct, why string) {
 	if n != nil && r.prog != nil {
 		pos = r.prog.Pos(n)
 	}
-	r.Obls = append(r.Obls, Obligation{Rule: rule, Construct: construct, Pos: pos, Verdict: v.String(), Why: why, verdict: v})
+	r.Obls = append(r.Obls, Obligation{Rule: rule, Construct: construct, Pos: pos, Verdict: v.String(), Why: why, verdict: v, FindKey: r.findKey})
+	r.findKey = ""
 	r.Census[rule]++
 }
 
